@@ -463,3 +463,6 @@ def evaluate(case):
             "outcome": "explored",
             "sample": {"tree": case["tree"], "f": case["f"], "mutation": case["mutation"], "events": K,
                        "first_access": first, "last_access": last_access}}
+
+
+RULE += ' Since rounds 10-11 also: a rewrite that carries a whole-second time (file systems with 1 s granularity) after `group` started in the second half of a second; changes during the dedupe run compare only contents the tree had before the command started or that the change wrote.'
